@@ -194,7 +194,7 @@ def loss_cases(draw, kind, max_n):
     spec = draw(lg.loss_spec(d, min(n, sim_n), kind=kind))
     data = draw(lg.data_spec(n=n, d=d, sim_n=sim_n))
     warm = draw(st.sampled_from([0, 0, 1, 3])) if min(n, sim_n) - 3 >= max(min_n, 9 if kind == "gsl" else 0) else 0
-    return {"loss": spec, "data": data, "warm": warm}
+    return {"loss": spec, "data": data, "warm": warm, "repeat": draw(st.integers(0, 3)) == 0}
 
 
 def check_loss(ctx: Ctx, case):
@@ -279,6 +279,12 @@ def check_loss(ctx: Ctx, case):
                 k = case["warm"]
                 try:
                     loss.compute_loss(sim[:, : sim.shape[1] - k].copy(), real[: real.shape[0] - k].copy())
+                except Exception:  # noqa: BLE001 - only the second evaluation is judged here
+                    pass
+            if case.get("repeat"):
+                # the same evaluation made once before on the same object with the same data: the value has no memory
+                try:
+                    loss.compute_loss(lg.kcopy(sim), lg.kcopy(real))
                 except Exception:  # noqa: BLE001 - only the second evaluation is judged here
                     pass
             got = loss.compute_loss(lg.kcopy(sim), lg.kcopy(real))
